@@ -1,6 +1,7 @@
 # vlib/props.py — registry of property checks
 from .fam_df import C05
+from .fam_api import C01, C03, C04, C10, C11
 
 REGISTRY = {}
-for cls in (C05,):
+for cls in (C05, C01, C03, C04, C10, C11):
     REGISTRY[cls.pid] = cls
